@@ -6,7 +6,7 @@
    insertion order) and results are compared as multisets, which is all the properties ask.
    Executable definitions only.                                                          *)
 From Coq Require Import ZArith Bool List String SpecFloat.
-From SSJ Require Import F64 PyNum FilterUtilsGen HelperGen TokenOrdering Measures Filters Lev.
+From SSJ Require Import F64 PyNum FilterUtilsGen HelperGen TokenOrdering Measures Filters Suffix Lev.
 Import ListNotations.
 Open Scope string_scope.
 Open Scope Z_scope.
@@ -62,13 +62,14 @@ Definition set_sim_join_core (p : fparams) (op : string) (allow_empty : bool)
     (enumerate R)).
 
 (* --- the four filters' _filter_tables_split; `which` selects the filter --- *)
-Inductive fkind := KSize | KPrefix | KPosition.
+Inductive fkind := KSize | KPrefix | KPosition | KSuffix.
 
 Definition filter_cand (k : fkind) (p : fparams) (x y : list Z) : option bool :=
   match k with
   | KSize => Some (size_cand p (len x) (len y))
   | KPrefix => prefix_cand p x y
   | KPosition => option_map (fun v => 0 <? v) (pos_cand p x y)
+  | KSuffix => suffix_cand p x y
   end.
 
 Definition filter_tables_core (k : fkind) (p : fparams) (allow_empty : bool)
